@@ -248,6 +248,12 @@ func runSEEKLEAF(c *Ctx) {
 			}
 		}
 	}
+	if lits > 0 && descent == nil {
+		// the descent may have been split out into a private helper (seekPath) that builds the options, descends and
+		// hands back the path recorded: the call of that helper stands for the descent, provided the helper itself
+		// does not cut the result short
+		descent = seekDescentHelperCall(c, seek, region)
+	}
 	if lits == 0 || descent == nil {
 		c.AnchorMissing("the findOptions literal and the descent call of SeekIter")
 		return
@@ -406,6 +412,99 @@ func runSEEKLEAF(c *Ctx) {
 	if n3 == 0 {
 		c.AnchorMissing("the per-level iteration call in SeekIter's loop")
 	}
+}
+
+// seekDescentHelperCall: the single call in SeekIter of a private helper of its region that contains the descent (the
+// call handed the address of a findOptions built there) and whose every success return after that descent yields the
+// path the descent recorded, untouched: the options' path field (or the options themselves). A helper that returns
+// anything else after the descent (nil, a slice of the path) is reported: that is a scan that ends, or starts too
+// high, without visiting the search path (clause 2).
+func seekDescentHelperCall(c *Ctx, seek *ssa.Function, region []*ssa.Function) *ssa.Call {
+	P := c.P
+	var found *ssa.Call
+	for _, ci := range CallsOf(seek) {
+		call, ok := ci.(*ssa.Call)
+		if !ok {
+			continue
+		}
+		h := ir.Callee(call.Call)
+		if h == nil || h == seek || h.Blocks == nil {
+			continue
+		}
+		inReg := false
+		for _, f := range region {
+			if f == h {
+				inReg = true
+			}
+		}
+		if !inReg {
+			continue
+		}
+		var inner *ssa.Call
+		var opts ssa.Value
+		nInner := 0
+		for _, hci := range CallsOf(h) {
+			hc, ok := hci.(*ssa.Call)
+			if !ok {
+				continue
+			}
+			for _, a := range hc.Call.Args {
+				if ir.IsPtrToNamed(a.Type(), "findOptions") {
+					inner, opts = hc, a
+					nInner++
+				}
+			}
+		}
+		if inner == nil {
+			continue
+		}
+		if _, isLocal := opts.(*ssa.Alloc); !isLocal || nInner != 1 || found != nil {
+			c.Undecided(h, P.InstrPos(inner), "descent of the range scan in a helper", "the helper's options are not a local literal handed to one descent call, or SeekIter calls several such helpers")
+			return nil
+		}
+		ei := ir.ErrorResultIndex(h.Signature)
+		// the path field is written by the descent only
+		for _, b := range h.Blocks {
+			for _, ins := range b.Instrs {
+				if st, ok := ins.(*ssa.Store); ok {
+					if fa, ok := st.Addr.(*ssa.FieldAddr); ok && fa.X == opts && isPathSlice(P, st.Val.Type()) {
+						c.Violation(h, P.InstrPos(st), "the search path is rewritten between the descent and the loop over it",
+							"the helper that performs the descent of the range scan changes the path recorded: levels dropped from it are never visited")
+					}
+				}
+			}
+		}
+		for _, r := range ir.Returns(h) {
+			if !ir.InstrReaches(inner, r) || (ei >= 0 && !ir.IsNilConst(r.Results[ei])) {
+				continue
+			}
+			whole := false
+			for j, res := range r.Results {
+				if j == ei {
+					continue
+				}
+				if res == opts {
+					whole = true // &options
+				}
+				if ld, ok := res.(*ssa.UnOp); ok && ld.Op == token.MUL && ir.InstrReaches(inner, ld) {
+					if ld.X == opts {
+						whole = true // the options by value
+					}
+					if fa, ok := ld.X.(*ssa.FieldAddr); ok && fa.X == opts && isPathSlice(P, ld.Type()) {
+						whole = true // options.path
+					}
+				}
+			}
+			if whole {
+				c.OK(P.InstrPos(r), "success return of "+ir.FuncName(h)+" after the descent", "hands SeekIter the whole path recorded by the descent", false)
+			} else {
+				c.Violation(h, P.InstrPos(r), "range scan ends before visiting the search path",
+					"after the descent the helper returns success without the path it recorded (or with a part of it): the later entries of the levels left out are never yielded")
+			}
+		}
+		found = call // a helper reported above still anchors the remaining clauses
+	}
+	return found
 }
 
 // stopPredicate: the call hands the probe to a same-package helper whose boolean answer, when false (and its error
